@@ -34,6 +34,9 @@ pub struct Case {
     pub plan: Vec<(u32, u8)>,
     #[serde(default)]
     pub relative: bool,
+    /// also run every plan that adds one more preemption at a later decision (bound |plan|+1)
+    #[serde(default)]
+    pub expand: bool,
 }
 
 fn to_hash(m: &Meta) -> std::collections::HashMap<String, String> {
@@ -138,7 +141,7 @@ impl Prop for C09 {
         if threads.is_empty() {
             threads.push(vec![BOp::Snapshot]);
         }
-        Case { cfg, prefix, threads, plan, relative: true }
+        Case { cfg, prefix, threads, plan, relative: true, expand: false }
     }
     fn run(&self, case: &Case, env: &CaseEnv) -> Result<CaseReport, Failure> {
         let mut rep = CaseReport::default();
@@ -199,6 +202,24 @@ impl Prop for C09 {
             }
         }
         rep.count("decisions", out.decisions as u64);
+        if case.expand && !case.relative {
+            let last = case.plan.iter().map(|(d, _)| *d).max().unwrap_or(0);
+            for (d, (alts, me_ready)) in out.trace.iter().enumerate() {
+                if (d as u32) > last && *alts > 1 && *me_ready {
+                    let mut c = case.clone();
+                    c.expand = false;
+                    c.plan.push((d as u32, 1));
+                    let sub = CaseEnv::sub(env, &format!("x{}", d));
+                    let r = self.run(&c, &sub);
+                    let _ = std::fs::remove_dir_all(sub.scratch_root());
+                    r.map_err(|mut f| {
+                        f.msg = format!("[plan {:?}] {}", c.plan, f.msg);
+                        f
+                    })?;
+                    rep.count("evaluations_judged", 1);
+                }
+            }
+        }
         let has_snapshot_activity = case.cfg.snapshot_interval > 0 || case.threads.iter().flatten().any(|o| matches!(o, BOp::Snapshot));
         rep.nontrivial = has_snapshot_activity && !plan.is_empty() && case.threads.len() >= 2;
         if out.blocked_events > 0 {
@@ -214,7 +235,7 @@ fn mk_insert(id: u64, x: f32, tag: &str) -> BOp {
     BOp::Insert { id, vec: FVec(vec![x, 1.0]), meta: m }
 }
 
-fn pair_cases(ctx: &Ctx) -> Vec<Case> {
+fn pair_cases(ctx: &Ctx, expand: bool) -> Vec<Case> {
     let prefix = vec![mk_insert(1, 1.0, "p"), mk_insert(2, 2.0, "p"), mk_insert(3, 3.0, "p"), BOp::Delete { id: 2 }, mk_insert(4, 4.0, "p")];
     let mut um = Meta::new();
     um.insert("u".into(), "1".into());
@@ -224,13 +245,17 @@ fn pair_cases(ctx: &Ctx) -> Vec<Case> {
     for si in [0usize, 1, 2] {
         for rot in [64u64, 1 << 20] {
             for cap in [6usize, 1000] {
+                // the bound-2 expansion (thorough) is restricted to three configurations
+                if expand && !matches!((si, rot, cap), (1, 64, 6) | (2, 64, 1000) | (0, 64, 6)) {
+                    continue;
+                }
                 let cfg = BackendCfg { metric: Metric::Euclidean, dim: 2, snapshot_interval: si, rotate_bytes: rot, capacity: cap, fsync: Fsync::Never };
                 for a in &ops_a {
                     for b in &ops_b {
-                        combos.push(Case { cfg: cfg.clone(), prefix: prefix.clone(), threads: vec![vec![a.clone()], vec![b.clone()]], plan: vec![], relative: false });
+                        combos.push(Case { cfg: cfg.clone(), prefix: prefix.clone(), threads: vec![vec![a.clone()], vec![b.clone()]], plan: vec![], relative: false, expand: false });
                         // a third thread snapshotting while two writers run
                         if !matches!(a, BOp::Snapshot) && !matches!(b, BOp::Snapshot) && si == 0 {
-                            combos.push(Case { cfg: cfg.clone(), prefix: prefix.clone(), threads: vec![vec![a.clone(), b.clone()], vec![BOp::Snapshot, BOp::Snapshot]], plan: vec![], relative: false });
+                            combos.push(Case { cfg: cfg.clone(), prefix: prefix.clone(), threads: vec![vec![a.clone(), b.clone()], vec![BOp::Snapshot, BOp::Snapshot]], plan: vec![], relative: false, expand: false });
                         }
                     }
                 }
@@ -257,6 +282,7 @@ fn pair_cases(ctx: &Ctx) -> Vec<Case> {
                         if *alts > 1 && *me_ready {
                             let mut c = base.clone();
                             c.plan = vec![(d as u32, 1)];
+                            c.expand = expand;
                             v.push(c);
                         }
                     }
@@ -277,8 +303,12 @@ pub fn main(ctx: &Ctx) {
     sched::install();
     run_committed_replays(ctx, &C09 { part_name: "pairs" });
     run_committed_replays(ctx, &C09 { part_name: "programs" });
-    let cases = pair_cases(ctx);
+    let cases = pair_cases(ctx, false);
     run_cases(ctx, &C09 { part_name: "pairs" }, "pairs", cases, true);
+    if ctx.tier == Tier::Thorough {
+        let cases = pair_cases(ctx, true);
+        run_cases(ctx, &C09 { part_name: "pairs" }, "pairs_bound2", cases, true);
+    }
     run_pbt(ctx, &C09 { part_name: "programs" }, ctx.tier.pick(100_000, 1_500_000));
 }
 
